@@ -171,7 +171,25 @@ static void chk_mulscalar_str(const T3 &a, const std::string &st, long long &ev)
                    fmt("got (%s,%s,%s) expected (%s)", hex(R[0].fe).c_str(), hex(R[1].fe).c_str(), hex(R[2].fe).c_str(), t3s(ex).c_str()));
 }
 static void chk_mulscalar(const T3 &a, long long z, long long &ev) { chk_mulscalar_str(a, dec(z), ev); }
-static void chk_batch(const std::vector<T3> &v, long long &ev)
+static std::string arr_desc(const std::vector<T3> &v, const std::string &compact)
+{
+    if (!compact.empty()) return compact;
+    std::string s = "arr=";
+    for (size_t j = 0; j < v.size(); j++) s += (j ? ";" : "") + t3s(v[j]);
+    return s;
+}
+static std::vector<T3> batch_alphabet()
+{
+    if (W == 2) return {T3{{1, 0, 0}}, T3{{0, 1, 0}}, T3{{13, 14, 15}}, T3{{12, 12, 12}}, T3{{5, 0, 7}}, T3{{14, 13, 3}}};
+    return {T3{{1, 0, 0}}, T3{{0, 1, 0}}, T3{{GP, GP + 1, GP + 2}}, T3{{GP - 1, GP - 1, GP - 1}}, T3{{~0ULL, 0, 0x100000000ULL}}, T3{{3, 0x5555555555555555ULL, 0xFFFFFFFFULL}}};
+}
+static std::vector<T3> gen_array(size_t n)
+{
+    std::vector<T3> al = batch_alphabet(), v(n);
+    for (size_t i = 0; i < n; i++) v[i] = al[(i * 5 + 1) % 6];
+    return v;
+}
+static void chk_batch(const std::vector<T3> &v, long long &ev, const std::string &compact = "")
 {
     size_t n = v.size();
     std::vector<u64> flat_src(3 * n), flat_res(3 * n, 0x99);
@@ -184,8 +202,7 @@ static void chk_batch(const std::vector<T3> &v, long long &ev)
         T3 prod = omul(v[i], r);
         if (!(prod.c[0] == 1 % PR && prod.c[1] == 0 && prod.c[2] == 0))
         {
-            std::string s = fmt("w=%u op=batchInverse n=%zu arr=", W, n);
-            for (size_t j = 0; j < n; j++) s += (j ? ";" : "") + t3s(v[j]);
+            std::string s = fmt("w=%u op=batchInverse n=%zu ", W, n) + arr_desc(v, compact);
             rep().viol(fmt("C09.wrong.batchInverse.w%u", W), s, fmt("element %zu: src*res = (%s)", i, t3s(prod).c_str()));
             return;
         }
@@ -196,8 +213,7 @@ static void chk_batch(const std::vector<T3> &v, long long &ev)
     for (size_t i = 0; i < 3 * n; i++)
         if (io[i] % PR != flat_res[i] % PR)
         {
-            std::string s = fmt("w=%u op=batchInverse_inplace n=%zu arr=", W, n);
-            for (size_t j = 0; j < n; j++) s += (j ? ";" : "") + t3s(v[j]);
+            std::string s = fmt("w=%u op=batchInverse_inplace n=%zu ", W, n) + arr_desc(v, compact);
             rep().viol(fmt("C09.wrong.batchInverse_inplace.w%u", W), s, fmt("in-place result differs from the out-of-place one at flat index %zu", i));
             return;
         }
@@ -231,6 +247,7 @@ static int run_one(const Args &args)
     else if (op.rfind("batchInverse", 0) == 0)
     {
         std::vector<T3> v;
+        if (cu(m, "gen", 0)) v = gen_array((size_t)cu(m, "n"));
         std::string arr = cs(m, "arr");
         size_t p = 0;
         while (p < arr.size()) { size_t q = arr.find(';', p); if (q == std::string::npos) q = arr.size(); v.push_back(parse3(arr.substr(p, q - p))); p = q + 1; }
@@ -326,9 +343,7 @@ int main(int argc, char **argv)
     // ---- batchInverse: every array of length 1..L over a 6-element alphabet of non-zero elements
     if (W == 2 || W == 32)
     {
-        std::vector<T3> al;
-        if (W == 2) al = {T3{{1, 0, 0}}, T3{{0, 1, 0}}, T3{{13, 14, 15}} /* (0,1,2) non-canonical */, T3{{12, 12, 12}}, T3{{5, 0, 7}}, T3{{14, 13, 3}}};
-        else al = {T3{{1, 0, 0}}, T3{{0, 1, 0}}, T3{{GP, GP + 1, GP + 2}}, T3{{GP - 1, GP - 1, GP - 1}}, T3{{~0ULL, 0, 0x100000000ULL}}, T3{{3, 0x5555555555555555ULL, 0xFFFFFFFFULL}}};
+        std::vector<T3> al = batch_alphabet();
         int L = (W == 2) ? 6 : (th ? 7 : 5);
         long long ev = 0, cnt = 0;
         for (int n = 1; n <= L; n++)
@@ -346,16 +361,14 @@ int main(int argc, char **argv)
             cnt += tot;
         }
         // longer arrays (stack VLA sizes): lengths 8..64 step, single pattern each
-        for (int n : {8, 9, 16, 33, 64})
+        for (int n : {8, 9, 16, 33, 64, 100, 257, 1000, 4099, 16384, 16385, 20001, 32769, 40002, 65537})
         {
-            std::vector<T3> v(n);
-            for (int i = 0; i < n; i++) v[i] = al[(i * 5 + 1) % 6];
-            chk_batch(v, ev);
+            chk_batch(gen_array((size_t)n), ev, "gen=1");
             cnt++;
         }
         ev_total += ev;
         states += cnt;
-        rep().sample("batchInverse", fmt("\"w\":%u,\"what\":\"every array of length 1..%d over a 6-element alphabet of non-zero elements (%lld arrays) + lengths 8,9,16,33,64; also in place\"", W, L, cnt), 1);
+        rep().sample("batchInverse", fmt("\"w\":%u,\"what\":\"every array of length 1..%d over a 6-element alphabet of non-zero elements (%lld arrays) + lengths 8,9,16,33,64,100,257,1000,4099,16384,16385,20001,32769,40002,65537; also in place\"", W, L, cnt), 1);
     }
     for (auto &e : ELS) if (e.c[0] >= PR || e.c[1] >= PR || e.c[2] >= PR) nontriv++;
     rep().stat("states", states);
